@@ -127,6 +127,10 @@ class DBusMessage :
 
             DBusMessage._nextSerial += 1
 
+            if DBusMessage._nextSerial > 0xFFFFFFFF:
+                # serials are UINT32 and must not be zero
+                DBusMessage._nextSerial = 1
+
         binHeader = b''.join(marshal.marshal(
             _headerFormat,
             [
